@@ -111,6 +111,12 @@ class Ctx:
         self.rules = []
         self._seen = set()
         self.known = load_known()
+        # stale replays of earlier runs of this property would only confuse a reader
+        rd = os.path.join(VERIF, "replays")
+        if os.path.isdir(rd):
+            for fn in os.listdir(rd):
+                if fn.startswith(pid + "-"):
+                    os.unlink(os.path.join(rd, fn))
 
     def cleanup(self):
         shutil.rmtree(self.tmp, ignore_errors=True)
